@@ -22,6 +22,11 @@ def asOptFess (v : Val) : R (List (Option (List (Fp p)))) := do
     | none => pure none
     | some y => do let l ← asFes y; pure (some l)
 
+def asOptFes' (v : Val) : R (Option (List (Fp p))) := do
+  match ← asOpt v with
+  | none => pure none
+  | some y => do let l ← asFes y; pure (some l)
+
 def vOptFes (xs : Option (List (Fp p))) : Val :=
   match xs with | none => .none | some l => .some (vFes l)
 def vOptNats (xs : Option (List Nat)) : Val :=
@@ -93,7 +98,15 @@ def vProofs (πs : List (KZG.Proof (Fp p))) : List (String × Val) :=
   [("ws", vFes (πs.map (·.w))), ("rvs", .l (πs.map fun π => vOptFe π.rv))]
 
 def handle (p : Nat) (r : Req) : Option (R String) :=
-  if !r.op.startsWith "marlin." then none else some do
+  if !r.op.startsWith "marlin." then none else
+  if r.op == "marlin.rand_add_scaled" then some do
+    -- `marlin_pc::Randomness += (f, &other)` on its own (public arithmetic of commitment states)
+    let a : Rand (Fp p) := ⟨← asFes (← need r "a"), ← asOptFes' (← need r "as")⟩
+    let b : Rand (Fp p) := ⟨← asFes (← need r "b"), ← asOptFes' (← need r "bs")⟩
+    let f ← asFe (← need r "f")
+    let c := Rand.addScaled a f b
+    pure <| okReply [("rand", vFes (pnorm c.rand)), ("srand", vOptFes (c.shifted.map pnorm))]
+  else some do
   let t ← getTrim (p := p) r
   match t with
   | .error e => pure (errReply e)
